@@ -1,3 +1,6 @@
+\* Standard TLC configuration: every predicate as an INVARIANT / action PROPERTY (TLC stops at the first
+\* violated one). The checks use TraceLedgerReport.cfg, which evaluates the same predicates on every line
+\* and prints all failures.
 SPECIFICATION Spec
 CONSTANT TraceFile = "trace.ndjson"
 INVARIANTS
@@ -10,6 +13,7 @@ INVARIANTS
   Inv_C15_Reverts
   Inv_C16_Ids
   Inv_C18_Accounts
+  Inv_C18_RevertFirstUsage
   Inv_C28_WellFormed
   Inv_C35_Hashes
 PROPERTIES
@@ -27,7 +31,19 @@ PROPERTIES
   Step_C18_Accounts
   Step_C03_Immutable
   Step_C19_Frame
+  Step_C19_CreateFrame
   Step_C31_Events
+  Step_C35_SameCore
+  Step_C35_FeatureReads
+  Step_C35_EffWithoutMoves
   Step_ResetPristine
+  StepC_C06_Serializable
+  StepC_C13_Serializable
+  StepC_C14_Serializable
+  StepC_C15_Serializable
+  StepC_C16_Serializable
+  StepC_C16_TxIdCommitOrder
+  StepC_C16_LogIdCommitOrder
+  StepC_C09_LinearChain
 POSTCONDITION Accepted
 CHECK_DEADLOCK FALSE
